@@ -173,10 +173,10 @@ impl Number {
             return Err("Right-hand to << must be an integer".to_string());
         }
         let exp = num.as_int().unwrap();
-        let two = BigInt::from(2i64);
-        let exp = two.pow(exp as u32);
+        // Negative shift counts shift in the opposite direction.
+        let exp = Numeric::from(2).pow(exp as i32);
         Ok(Number {
-            value: &self.value * &Numeric::from(exp),
+            value: &self.value * &exp,
             unit: self.unit.clone(),
         })
     }
@@ -193,10 +193,10 @@ impl Number {
             return Err("Right-hand to >> must be an integer".to_string());
         }
         let exp = num.as_int().unwrap();
-        let two = BigInt::from(2i64);
-        let exp = two.pow(exp as u32);
+        // Negative shift counts shift in the opposite direction.
+        let exp = Numeric::from(2).pow(exp as i32);
         Ok(Number {
-            value: &self.value / &Numeric::from(exp),
+            value: &self.value / &exp,
             unit: self.unit.clone(),
         })
     }
